@@ -243,6 +243,13 @@ def make_job(tape):
             src += f"w{i} = Uniform({', '.join(str(x) for x in range(1, hi + 1))})\n"
         for i in range(k):
             src += f"require w{i} {tape.choice(['<', '<=', '!='], 'reqonly.cmp')} {tape.intrange(2, 4, 'reqonly.c')}\n"
+        if k and tape.chance(1, 2, "raising_requirement?"):
+            # a requirement that rejects by *raising* (as a vector field evaluated outside its
+            # domain does) instead of evaluating to false: everything the checker consumed before
+            # it in that attempt must still be kept out of the user-visible random stream
+            src += ("from scenic.core.distributions import RejectionException\n"
+                    "def rj(x):\n    if x:\n        raise RejectionException('rejected inside a requirement')\n    return True\n"
+                    f"require rj(w0 == {tape.intrange(1, 3, 'raising.c')})\n")
         used = fd.reachable(prog)
         out_nodes = set()
         for s in prog["stmts"]:
